@@ -39,6 +39,15 @@ Definition trivial_cast (v : pyval) (t : pcls) : pyval + err :=
   | TcTypeError => inr EType
   end.
 
+(* vocabulary of gen/Gen_TypedSetters.v (the setters translated from submodel.py / base.py) *)
+Definition is_none {A} (o : option A) : bool := match o with None => true | Some _ => false end.
+(* datatypes.trivial_cast(a, t) on optional arguments: None as the type makes isinstance() raise TypeError, and None as
+   the value is no instance of anything *)
+Definition tcast (a : option pyval) (t : option pcls) : pyval + err :=
+  match a, t with Some x, Some t' => trivial_cast x t' | _, _ => inr EType end.
+Definition bind_tc {R} (r : pyval + err) (k : option pyval -> R + err) : R + err :=
+  match r with inl y => k (Some y) | inr e => inr e end.
+
 (* ---------------------------------------------------------------- holders *)
 (* one-value holders: Property / Qualifier (the type is always present) and Extension (hopt = true: value_type may
    be None, and then no value may be present) *)
